@@ -371,6 +371,7 @@ func runC10(ctx *report.Ctx) {
 	if ctx.Quick() {
 		second = []int{-1, 5, 3}
 	}
+	selfTests := 0
 	part(ctx, "S", -1, func(c *explore.Chooser) {
 		mk := func(si int, label string) *c10Cmd {
 			sh := c10Shapes[si]
@@ -389,6 +390,7 @@ func runC10(ctx *report.Ctx) {
 		if !c.Mine() {
 			return
 		}
+		cfgChoices := len(c.Choices())
 		ctx.Current("S: " + cfg.describe())
 		var results []string
 		var clause, detail string
@@ -399,6 +401,44 @@ func runC10(ctx *report.Ctx) {
 		ex := vsched.Run(vsched.Options{Choose: c.Choose, PreemptionBound: pb}, func() {
 			clause, detail = c10Body(cfg, maxCalls, &results)
 		})
+		// determinism self-test: the first executions of every worker are replayed from their recorded
+		// choice vector and must meet the same scheduling points and observations
+		if selfTests < 40 && ctx.Replay == nil {
+			selfTests++
+			fixed := c.Choices()
+			var results2 []string
+			var log2 []string
+			explore.Run(explore.Options{Fixed: fixed}, func(c2 *explore.Chooser) {
+				cfg2 := &c10Config{}
+				for _, cm := range cfg.cmds {
+					cfg2.cmds = append(cfg2.cmds, &c10Cmd{shape: cm.shape, gated: cm.gated, openAt: cm.openAt, gate: make(chan struct{}, 1)})
+				}
+				// consume the configuration choices of the prefix exactly as the original case did
+				i := 0
+				ch := func(n int, label string) int {
+					v := 0
+					if i < len(fixed) {
+						v = fixed[i]
+					}
+					i++
+					return v
+				}
+				i = cfgChoices
+				ex2 := vsched.Run(vsched.Options{Choose: ch, PreemptionBound: pb}, func() { c10Body(cfg2, maxCalls, &results2) })
+				for _, e := range ex2.Log {
+					log2 = append(log2, e.String())
+				}
+			})
+			var log1 []string
+			for _, e := range ex.Log {
+				log1 = append(log1, e.String())
+			}
+			if strings.Join(results, " ") != strings.Join(results2, " ") || strings.Join(log1, " ") != strings.Join(log2, " ") {
+				ctx.HarnessError("C10: replaying a recorded schedule gave another execution (nondeterminism not under control): %s :: %v vs %v", cfg.describe(), results, results2)
+				return
+			}
+			ctx.Count("schedules_replayed_identically", 1)
+		}
 		ws := 0
 		for _, r := range results {
 			if r == "W" {
